@@ -23,8 +23,18 @@ CREATE_VARIANTS = [
     'select cast(a as foo)', 'select count(a, b)', 'select cast(a as int)', 'select cast(a as varchar(10))', 'select a::foo', 'select (a, b) + 1',
     'select x in (1, 2)', 'select x in y', 'select * from t as a.b', 'insert into t values (1)', 'insert into t (a, a) values (1, 2)',
     'update t set a = 1 from (select 1) as s where 1 = 1', 'select * from a.b.c.d', 'select ?', 'select @v', 'select f(a from b)',
+    'insert into t (a, b, c) values (1, 2)', 'insert into t (a, b) values (1, 2), (3)', 'insert into t (a) values (1, 2)', 'insert into t (a, b) values (1)',
+    'insert into t (a, b) select 1', 'update t set a = 1, a = 2', 'select * from t1 right join t2 on t1.a = t2.a', 'select * from a.b.c', 'select a from t limit 1, 2',
     'select sum(distinct a)', 'select count(distinct a, b)', 'select interval 1 day', "select interval '1' day", 'select a -> 1',
 ]
+
+
+def fresh_of(name, meth, fb, tree):
+    try:
+        v = getattr(SqlalchemyRender(name), meth)(tree, with_failback=fb)
+        return ('value', v if isinstance(v, str) else (v[0] if isinstance(v, tuple) and v and isinstance(v[0], str) else repr(v)))
+    except Exception as e:
+        return ('raises', type(e).__name__)
 
 
 class CHECK(Check):
@@ -75,6 +85,27 @@ class CHECK(Check):
         before = reflect.fingerprint(tree)
         res.key(before)
         reported = set()
+        if getattr(self, 'renders_b', None) is None:
+            self.renders_b = {n: SqlalchemyRender(n) for n in NAMES}
+
+        def outcome(r, meth, fb):
+            try:
+                v = getattr(r, meth)(tree, with_failback=fb)
+                return ('value', v if isinstance(v, str) else (v[0] if isinstance(v, tuple) and v and isinstance(v[0], str) else repr(v)))
+            except Exception as e:
+                return ('raises', type(e).__name__)
+
+        for name in NAMES:
+            # the contract speaks about one call: what a renderer that has rendered nothing else answers is the reference for renderers with a history
+            fresh = {(meth, fb): outcome(SqlalchemyRender(name), meth, fb) for meth in ('get_string', 'get_exec_params') for fb in (True, False)}
+            rb = self.renders_b[name]
+            for meth in ('get_string', 'get_exec_params'):
+                for fb in (False, True):
+                    got = outcome(rb, meth, fb)
+                    if got != fresh[(meth, fb)] and 'history' not in reported:
+                        reported.add('history')
+                        res.violation(f'answer-depends-on-renderer-history|{meth}|fallback-{"on" if fb else "off"}',
+                                      f'{text!r}: {meth}(with_failback={fb}) for {name} on a renderer used before gives {str(got)[:150]!r}; a new renderer gives {str(fresh[(meth, fb)])[:150]!r}')
         for name in NAMES:
             r = self.renders[name]
             for meth in ('get_string', 'get_exec_params'):
@@ -82,6 +113,10 @@ class CHECK(Check):
                     res.count('renders')
                     try:
                         v = getattr(r, meth)(tree, with_failback=fb)
+                        if fresh_of(name, meth, fb, tree) != ('value', v if isinstance(v, str) else (v[0] if isinstance(v, tuple) and v and isinstance(v[0], str) else repr(v))) and 'history' not in reported:
+                            reported.add('history')
+                            res.violation(f'answer-depends-on-renderer-history|{meth}|fallback-{"on" if fb else "off"}',
+                                          f'{text!r}: {meth}(with_failback={fb}) for {name} on a renderer used before gives {str(v)[:150]!r}; a new renderer answers differently')
                         ok_type = isinstance(v, str) if meth == 'get_string' else (isinstance(v, tuple) and len(v) == 2 and isinstance(v[0], str))
                         if not ok_type:
                             sig = f'returns-non-string|{meth}|{root}'
